@@ -14,6 +14,24 @@ CLAIMED = {
         note=COMMON_NOTE + "The guard shape of to_reason_code and the nine tables are extracted by a translator; the compiled tables are cross-checked against the extraction on every run.",
         technique="Lean 4 theorems (decide +kernel over the finite table) + translator + exhaustive differential run under ASan",
         design="§5 C20", engine="h_rc"),
+    "C06": dict(
+        text="Proof, on the ordering core: inside the window of fewer than 2^31 publishes per client object the model of write_req::operator< is the lexicographic strict weak order "
+             "(prioritized, serial), and the modelled re-send sort is a permutation, has no inversion and is stable, so PUBLISH requests leave in serial = initiation order "
+             "(theorem publish_order_after_resend_partial); the cyclic behaviour across 2^31 is a proved counterexample and a recorded known finding (F9). "
+             "Tied to the code by differential runs of the real comparator and std::stable_sort over vector<write_req>.",
+        note=COMMON_NOTE + "_partial: hypothesis `all serials < 2^31`. std::stable_sort is modelled by List.mergeSort (equal results for a strict weak order). "
+             "That the sender hands requests to the queue/batches in this order (async_sender::do_write/resend, failed batch re-inserted in front) is checked at client level (H-client), not yet proved.",
+        technique="Lean 4 theorems on comparator + merge sort (core lemmas), differential correspondence with the real operator< and std::stable_sort",
+        design="§5 C06", engine="h_order"),
+    "C16": dict(
+        text="Proof, string level: for every byte string the model of validate_mqtt_utf8 / validate_topic_name / validate_topic_alias_name / is_valid_string_pair accepts exactly the "
+             "well-formed inputs (Unicode Table 3-7 decoder as spec, MQTT allowed code points, 65535-byte limit, no wildcards / non-empty for topic names); the per-character rule is "
+             "translated from the source on every run. Topic-filter and $share grammars: exhaustive small-scope differential check against an independent spec (no theorem yet). "
+             "Tied to the code by ~170k (quick) inputs through the real validators under ASan incl. all strings of length <= 2 and every lead/continuation class.",
+        note=COMMON_NOTE + "The decoder model is a hand-written arithmetic port of pop_front_unichar (bit operations as div/mod). Request-level application of the validators "
+             "(publish/subscribe/unsubscribe/disconnect property checks, value ranges) is checked at client level, not proved here.",
+        technique="Lean 4 theorems (induction over the string, omega on byte arithmetic, kernel-evaluated 16-bit mask lemma) + translator for the character rule + exhaustive/small-scope differential correspondence",
+        design="§5 C16", engine="h_utf8"),
     "C08": dict(
         text="Refinement proof: the interval allocator model refines a set of free identifiers (allocate = lowest free id, non-zero, removed; free = insert; "
              "representation invariant kept), lifted by induction over every legal history of allocations and releases of any length (uniqueness among "
@@ -69,6 +87,8 @@ def main():
             {"name": "lean", "path": "/verif/lean", "serves_properties": sorted(CLAIMED), "kind_free_text": "Lean 4 library Mqtt5V (Gen = translated from source, Spec, Model, Proofs, Props) + compiled model driver mdrv"},
             {"name": "translators", "path": "/verif/tools", "serves_properties": sorted(CLAIMED), "kind_free_text": "regenerate Gen/*.lean from /repo headers on every run"},
             {"name": "h_rc", "path": "/verif/harness/h_rc.cpp", "serves_properties": ["C20"], "kind_free_text": "real to_reason_code under ASan, exhaustive"},
+            {"name": "h_order", "path": "/verif/harness/h_order.cpp", "serves_properties": ["C06"], "kind_free_text": "real write_req::operator< and std::stable_sort over vector<write_req>"},
+            {"name": "h_utf8", "path": "/verif/harness/h_utf8.cpp", "serves_properties": ["C16"], "kind_free_text": "real UTF-8 / topic validators on exact-size heap copies under ASan"},
             {"name": "h_pid", "path": "/verif/harness/h_pid.cpp", "serves_properties": ["C08"], "kind_free_text": "real packet_id_allocator, alloc/free scripts, state dump"},
             {"name": "h_mutex", "path": "/verif/harness/h_mutex.cpp", "serves_properties": ["C11"], "kind_free_text": "real async_mutex with per-waiter cancellation slots on a polled io_context"},
         ],
